@@ -490,4 +490,189 @@ theorem arip_spellings (rho : Rat) (n w : Nat) :
 
 example : (AripForm.rate).sigma 2 4 = [1, 2, 4, 8] ∧ aripAggVector? "last" 3 = some [0, 0, 1] := by decide +kernel
 
+/-! ## `select` together with `discard_missing`: order of operations, full pipeline -/
+
+/-- the members at the selected positions, in the order given (negative positions count from the end of the group) -/
+def selPure (sel : List Int) (w : List Val) : List Val :=
+  sel.map fun i => w.getD (if i < 0 then i + (w.length : Int) else i).toNat none
+
+/-- all selected positions lie inside a group of `k` members -/
+def SelValid (sel : List Int) (k : Nat) : Prop := ∀ i ∈ sel, -(k : Int) ≤ i ∧ i < k
+
+theorem npTake_valid (sel : List Int) (w : List Val) (h : SelValid sel w.length) : npTake w sel = .ok (selPure sel w) := by
+  rw [npTake_eq]
+  unfold selPure
+  induction sel with
+  | nil => rfl
+  | cons i is ih =>
+    have hi := h i (by simp)
+    have : npIndex w i = .ok (w.getD (if i < 0 then i + (w.length : Int) else i).toNat none) := by
+      by_cases hneg : i < 0
+      · rw [(npIndex_cases w i).2.1 ⟨hi.1, hneg⟩]; simp [hneg]
+      · rw [(npIndex_cases w i).1 ⟨by omega, hi.2⟩]; simp [hneg]
+    rw [List.mapM_cons, this, ih (fun j hj => h j (by simp [hj]))]
+    rfl
+
+/-- **Order of operations.** The positions of `select` index the *calendar* positions of the group (missing members
+included); missing values are discarded afterwards, from the selected members only; then the method is applied. -/
+theorem select_then_discard (sel : List Int) (d : Bool) (m : Method) (w : List Val) (h : SelValid sel w.length) :
+    aggWithin (some sel) d m w = .ok (aggPure d m (selPure sel w)) ∧
+    aggPure true m (selPure sel w) = aggPure false m ((selPure sel w).filter Option.isSome) := by
+  refine ⟨?_, discard_is_method_on_present m _⟩
+  simp [aggWithin, npTake_valid sel w h, bind, Except.bind, pure, Except.pure, aggPure]
+
+/-- selecting position 1 of `[NaN, 1, 2]` with discarding gives `1` (the calendar position), not `2` (the position among the
+non-missing members); selecting position 0 gives a missing value -/
+example : aggWithin (some [1]) true .sum [none, some 1, some 2] = .ok (some 1) ∧
+    aggWithin (some [0]) true .sum [none, some 1, some 2] = .ok none ∧
+    aggWithin (some [-1, 0]) true .first [none, some 1, some 2] = .ok (some 2) := by decide +kernel
+
+theorem selPure_replicate_none (sel : List Int) (k : Nat) : selPure sel (List.replicate k none) = List.replicate sel.length none := by
+  unfold selPure
+  apply List.ext_getElem
+  · simp
+  · intro i h1 h2
+    simp [List.getD_eq_getElem?_getD, List.getElem?_replicate]
+    split <;> split <;> rfl
+
+/-- rows of regular aggregation with a valid `select` -/
+def aggRowsSel (s : Ser) (sel : List Int) (d : Bool) (m : Method) (soy : Int) (k n : Nat) : List (List Val) :=
+  (List.range n).map fun j => (List.range s.nv).map fun v => aggPure d m (selPure sel (regularGroup s v soy k j))
+
+theorem regularGroup_length (s : Ser) (v : Nat) (soy : Int) (k j : Nat) : (regularGroup s v soy k j).length = k := by
+  simp [regularGroup]
+
+theorem aggRowsSel_get (s : Ser) (lo : Freq) (sel : List Int) (d : Bool) (m : Method) (k n : Nat) (hk : 0 < k) (newStart soy : Int)
+    (h1 : soy = newStart * k) (h2 : soy ≤ s.start) (h3 : s.endSerial < soy + n * k)
+    (v : Nat) (hv : v < s.nv) (T : Int) :
+    (Ser.trim ⟨lo, s.nv, newStart, aggRowsSel s sel d m soy k n⟩).get v T
+      = aggPure d m (selPure sel ((List.range k).map fun (i : Nat) => s.get v (T * k + i))) := by
+  have hnone : ∀ f : Nat → Val, (∀ i, i < k → f i = none) →
+      aggPure d m (selPure sel ((List.range k).map f)) = none := by
+    intro f hf
+    have : (List.range k).map f = List.replicate k none := by
+      apply List.ext_getElem
+      · simp
+      · intro i a b; simp only [List.getElem_map, List.getElem_range, List.getElem_replicate]; exact hf i (by simpa using a)
+    rw [this, selPure_replicate_none, aggPure_replicate_none]
+  rw [Ser.get_trim, Ser.get_eq]
+  simp only [aggRowsSel, rowsGet_table]
+  by_cases c1 : T < newStart
+  · simp only [c1, if_true]
+    symm; apply hnone
+    intro i hi
+    apply Ser.get_outside; left
+    have : (T + 1) * (k : Int) ≤ newStart * k := Int.mul_le_mul_of_nonneg_right (by omega) (by omega)
+    rw [Int.add_mul] at this
+    omega
+  · simp only [c1, if_false]
+    by_cases c2 : (T - newStart).toNat < n
+    · simp only [c2, hv, and_self, if_true]
+      congr 2
+      unfold regularGroup
+      apply List.map_congr_left
+      intro i _
+      congr 1
+      have e : (((T - newStart).toNat : Nat) : Int) = T - newStart := by omega
+      rw [e, h1, Int.sub_mul]
+      omega
+    · simp only [c2, false_and, if_false]
+      symm; apply hnone
+      intro i hi
+      apply Ser.get_outside; right
+      have hn : newStart + n ≤ T := by omega
+      have : (newStart + n) * (k : Int) ≤ T * k := Int.mul_le_mul_of_nonneg_right hn (by omega)
+      rw [Int.add_mul] at this
+      omega
+
+
+theorem aggWithin_sel_group (s : Ser) (sel : List Int) (d : Bool) (m : Method) (v : Nat) (soy : Int) (k j : Nat)
+    (hsel : SelValid sel k) :
+    aggWithin (some sel) d m (regularGroup s v soy k j) = .ok (aggPure d m (selPure sel (regularGroup s v soy k j))) :=
+  (select_then_discard sel d m _ (by rw [regularGroup_length]; exact hsel)).1
+
+theorem aggregateRegular_eq_select (hi lo : Freq) (hp : (hi, lo) ∈ regularPairs) (s : Ser) (hs : s.freq = hi) (m : Method)
+    (d : Bool) (sel : List Int) (hsel : SelValid sel (factorOf hi lo)) :
+    aggregateRegular s lo m d (some sel) = .ok (Ser.trim ⟨lo, s.nv, (s.start / hi.value) * lo.value,
+      aggRowsSel s sel d m ((s.start / hi.value) * hi.value) (factorOf hi lo)
+        ((s.endSerial / hi.value - s.start / hi.value + 1) * lo.value).toNat⟩) := by
+  simp only [regularPairs, List.mem_cons, Prod.mk.injEq, List.mem_nil_iff, or_false] at hp
+  unfold aggregateRegular
+  rcases hp with ⟨rfl, rfl⟩ | ⟨rfl, rfl⟩ | ⟨rfl, rfl⟩ | ⟨rfl, rfl⟩ | ⟨rfl, rfl⟩ | ⟨rfl, rfl⟩ <;>
+  (simp only [factorOf, Freq.value, freqMonthly, freqQuarterly, freqHalfyearly, freqYearly] at hsel
+   simp at hsel
+   simp [hs, factorOf, Freq.value, freqMonthly, freqQuarterly, freqHalfyearly, freqYearly, toYearSegmentYear, fromYearSegment,
+    serialFromYsf, Int.fdiv_eq_ediv_of_nonneg, aggWithin_sel_group _ _ _ _ _ _ _ _ hsel, mapM_ok, bind, Except.bind, pure, Except.pure, aggRowsSel]
+   simp (disch := omega) only [if_pos, if_neg]
+   iterate 5 apply congrArg
+   omega)
+
+/-- **Membership with `select` (regular → regular), full pipeline.** With every selected position inside the group
+(`-k ≤ i < k`), `aggregate` succeeds and at every low-frequency period `T` returns the method applied — after discarding
+missing values if asked — to the members of `T` at the selected *calendar* positions, in the order given. -/
+theorem aggregate_regular_membership_select (hi lo : Freq) (hp : (hi, lo) ∈ regularPairs) (s : Ser) (hs : s.freq = hi)
+    (hne : s.rows ≠ []) (m : Method) (d : Bool) (sel : List Int) (hsel : SelValid sel (factorOf hi lo)) :
+    ∃ r, aggregate s lo m d (some sel) = .ok r ∧ r.freq = lo ∧ r.nv = s.nv ∧
+      ∀ v, v < s.nv → ∀ T : Int, r.get v T = aggPure d m (selPure sel ((members hi lo T).map (s.get v))) := by
+  have hk := factorOf_pos hi lo hp
+  have hagg : aggregate s lo m d (some sel) = aggregateRegular s lo m d (some sel) := by
+    simp only [regularPairs, List.mem_cons, Prod.mk.injEq, List.mem_nil_iff, or_false] at hp
+    unfold aggregate
+    have : s.rows.isEmpty = false := by cases h : s.rows <;> simp_all
+    rcases hp with ⟨rfl, rfl⟩ | ⟨rfl, rfl⟩ | ⟨rfl, rfl⟩ | ⟨rfl, rfl⟩ | ⟨rfl, rfl⟩ | ⟨rfl, rfl⟩ <;>
+      simp [this, hs, Freq.value, freqMonthly, freqQuarterly, freqHalfyearly, freqYearly, Freq.isRegular]
+  rw [hagg, aggregateRegular_eq_select hi lo hp s hs m d sel hsel]
+  refine ⟨_, rfl, rfl, rfl, ?_⟩
+  intro v hv T
+  have hlen : 0 < s.rows.length := by cases h : s.rows <;> simp_all
+  have hend : s.start ≤ s.endSerial := by unfold Ser.endSerial; omega
+  rw [aggRowsSel_get s lo sel d m (factorOf hi lo) _ hk _ _ ?_ ?_ ?_ v hv T]
+  · unfold members; rw [List.map_map]; rfl
+  all_goals
+    simp only [regularPairs, List.mem_cons, Prod.mk.injEq, List.mem_nil_iff, or_false] at hp
+    rcases hp with ⟨rfl, rfl⟩ | ⟨rfl, rfl⟩ | ⟨rfl, rfl⟩ | ⟨rfl, rfl⟩ | ⟨rfl, rfl⟩ | ⟨rfl, rfl⟩ <;>
+      simp [factorOf, Freq.value, freqMonthly, freqQuarterly, freqHalfyearly, freqYearly] <;> omega
+
+example : SelValid [0, -1] (factorOf .Q .Y) := by intro i hi; simp [factorOf, Freq.value, freqQuarterly, freqYearly] at hi ⊢; rcases hi with rfl | rfl <;> omega
+example : (aggregate ⟨.Q, 1, 8080, [[none], [some 2], [some 3], [some 4]]⟩ .Y .sum true (some [0, -1])).map (fun r => r.rows)
+    = .ok [[some 4]] := by decide +kernel
+
+/-! ## Rejections -/
+
+/-- what `aggregate` rejects (the code raises): an empty series, a finer target frequency, a selected position outside
+the group; and the same frequency is a no-op -/
+theorem aggregate_rejects (s : Ser) (tf : Freq) (m : Method) (d : Bool) (sel : Option (List Int)) :
+    (s.rows = [] → aggregate s tf m d sel = .error .badInput) ∧
+    (s.rows ≠ [] → tf = s.freq → aggregate s tf m d sel = .ok s) ∧
+    (s.rows ≠ [] → tf ≠ s.freq → tf.value > s.freq.value → aggregate s tf m d sel = .error .badInput) := by
+  refine ⟨?_, ?_, ?_⟩
+  · intro h; simp [aggregate, h]; rfl
+  · intro h1 h2
+    have : s.rows.isEmpty = false := by cases h : s.rows <;> simp_all
+    simp [aggregate, this, h2]; rfl
+  · intro h1 h2 h3
+    have : s.rows.isEmpty = false := by cases h : s.rows <;> simp_all
+    simp [aggregate, this, h2, h3]; rfl
+
+/-- what `disaggregate` rejects: an empty series, a coarser target frequency; the same frequency is a no-op -/
+theorem disaggregate_rejects (s : Ser) (tf : Freq) (dm : DMethod) :
+    (s.rows = [] → disaggregate s tf dm = .error .badInput) ∧
+    (s.rows ≠ [] → tf = s.freq → disaggregate s tf dm = .ok s) ∧
+    (s.rows ≠ [] → tf ≠ s.freq → tf.value < s.freq.value → disaggregate s tf dm = .error .badInput) := by
+  refine ⟨?_, ?_, ?_⟩
+  · intro h; simp [disaggregate, h, bind, Except.bind]; rfl
+  · intro h1 h2
+    have : s.rows.isEmpty = false := by cases h : s.rows <;> simp_all
+    simp [disaggregate, this, h2, bind, Except.bind, pure, Except.pure]
+  · intro h1 h2 h3
+    have : s.rows.isEmpty = false := by cases h : s.rows <;> simp_all
+    simp [disaggregate, this, h2, h3, bind, Except.bind, pure, Except.pure]; rfl
+
+/-- a selected position outside the group makes the whole regular aggregation fail (`IndexError`) -/
+example : aggregate ⟨.Q, 1, 8080, [[some 1], [some 2], [some 3], [some 4]]⟩ .Y .sum false (some [4]) = .error .badInput ∧
+    aggregate ⟨.Q, 1, 8080, [[some 1]]⟩ .M .sum false none = .error .badInput ∧
+    aggregate ⟨.Q, 1, 8080, []⟩ .Y .sum false none = .error .badInput ∧
+    aggregate ⟨.Q, 1, 8080, [[some 1]]⟩ .I .sum false none = .error .badInput ∧
+    disaggregate ⟨.I, 1, 3, [[some 1]]⟩ .Q .flat = .error .badInput := by decide +kernel
+
 end IrisVerif.C12
